@@ -1281,6 +1281,10 @@ C03_LIMIT = 65535
 
 
 def explore_c03(ctx, res, replay_ops=None):
+    from . import recber
+    if replay_ops and replay_ops[0].startswith("recber "):
+        recber.recber_phase(ctx, res, "C03", ops=replay_ops)
+        return
     r = ctx.stream("cdrsize", n_for(ctx, 60, 900), ops=replay_ops, with_model=False)
     kf = ctx.kf_classes()
     q, qi = [], []
@@ -1378,6 +1382,15 @@ def explore_c03(ctx, res, replay_ops=None):
         elif kind in ("update", "fit", "fiton", "release") and d.get("st") in ("200", "204"):
             res.violation("oracle", "C03: a successful %s wrote no CDR file" % kind, replay + ["# impl: " + im[:200]])
         prevs[sub] = sizes
+    # --- the records' octets and the guard's decisions against the record encoder model (Model/RecordBer.lean)
+    starts, s0 = [], 0
+    for i, op in enumerate(r.ops):
+        if op.split(" ")[1:2] == ["reset"]:
+            s0 = i
+        starts.append(s0)
+    recber.cdrsize_records(ctx, res, "C03", r.ops, obs, lambda i: starts[i])
+    if replay_ops is None:
+        recber.recber_phase(ctx, res, "C03")
     res.rule = ("offline charging sessions through the real router: one session growing by 40 (thorough 160) updates across the 127/255/65535 "
                 "header boundaries; updates of 2300..2610 containers landing below/at/above the limit followed by small updates and a release "
                 "that adds usage; updates sized at run time so that len(record)+len(usage) = 65535+d for d in -8..2 on a fresh and on a grown "
